@@ -179,7 +179,7 @@ pub fn run(report: &Report, tier: &Tier) {
             d += 20;
         }
     }
-    let reps: u64 = if tier.thorough { 12 } else { 1 };
+    let reps: u64 = if tier.thorough { 40 } else { 1 };
     let n = cases.len() as u64 * reps;
     run_parallel(report, n, threads(), tier.budget_s * 0.5, |i, l| {
         let (ttl, age) = cases[(i % cases.len() as u64) as usize];
